@@ -1,5 +1,7 @@
 package scan
 
+import "context"
+
 // API-only obligations for C04: nothing here touches the iterator's fields or the group table, so these
 // stay decidable when the representation changes (R8C04-b turned the big.Int fields into int64 and every
 // field-level harness stopped compiling, i.e. went INCONCLUSIVE).
@@ -79,6 +81,53 @@ func VerifH_C04_apiSmall() {
 	for _, bad := range []int64{0, -1, 1<<32 + 61, 1 << 40, -1 << 63} {
 		_, err := newRangeIterator(bad)
 		verifAssert(err != nil, "range size outside 1..2^32+60 accepted")
+	}
+	verifCover("done")
+}
+
+// VerifH_C01_portgenReal: the real port generator with the REAL iterator (no seam; the engine's fixed
+// random draws) on port lists with several ranges of equal size, single ports, touching and repeated ranges:
+// the ports delivered are exactly the denoted multiset, range by range.  Also two calls of Ports on one
+// generator (one per engine run).  Concrete execution.
+func VerifH_C01_portgenReal() {
+	lists := [][]*PortRange{
+		{{StartPort: 20, EndPort: 25}, {StartPort: 80, EndPort: 85}, {StartPort: 443, EndPort: 443}, {StartPort: 8080, EndPort: 8080}},
+		{{StartPort: 1, EndPort: 3}, {StartPort: 1, EndPort: 3}, {StartPort: 4, EndPort: 6}},
+		{{StartPort: 65530, EndPort: 65535}, {StartPort: 0, EndPort: 5}, {StartPort: 100, EndPort: 105}},
+		{{StartPort: 7, EndPort: 7}, {StartPort: 7, EndPort: 7}},
+	}
+	prs := lists[verifParam("LIST", 0)]
+	pg := NewPortGenerator()
+	for call := 0; call < 2; call++ {
+		ch, err := pg.Ports(context.Background(), &Range{Ports: prs})
+		verifAssert(err == nil, "valid port ranges refused")
+		if err != nil {
+			return
+		}
+		var got []uint16
+		for g := range ch {
+			p, gerr := g.GetPort()
+			verifAssert(gerr == nil, "port generator produced an error element for a valid range")
+			got = append(got, p)
+		}
+		k := 0
+		for _, r := range prs {
+			n := int(r.EndPort) - int(r.StartPort) + 1
+			seen := make([]bool, n)
+			for j := 0; j < n; j++ {
+				if k >= len(got) {
+					verifAssert(false, "fewer ports delivered than the ranges denote")
+					return
+				}
+				p := got[k]
+				k++
+				verifAssert(p >= r.StartPort && p <= r.EndPort && !seen[int(p)-int(r.StartPort)], "a port outside its range, or delivered twice within a range")
+				if p >= r.StartPort && p <= r.EndPort {
+					seen[int(p)-int(r.StartPort)] = true
+				}
+			}
+		}
+		verifAssert(k == len(got), "more ports delivered than the ranges denote")
 	}
 	verifCover("done")
 }
